@@ -44,6 +44,33 @@ CHECKS = {
         "Trusted: harness/gen.py (grammar, hand-written serializer, expected_view), xml.etree as XML reference.",
         "DESIGN.md section 4, C03",
     ),
+    "C04": (
+        "exploration",
+        "exhaustive enumeration of the bounded router universe (device subsets x client states x every client send) + Hypothesis histories, reference-router differential",
+        "Model-based generated search: every abstract state of the bounded universe is built on a real Router and every client-originated "
+        "send from every sender is compared, as a multiset of (endpoint, message) deliveries, with a 40-line reference router; longer "
+        "histories in larger universes are drawn by Hypothesis. Exhaustive inside the bound, exploration beyond.",
+        "Trusted: harness/routing.py RefRouter as the statement of C04; recording endpoints; a real Driver supplies accepts().",
+        "DESIGN.md section 4, C04",
+    ),
+    "C05": (
+        "exploration",
+        "exhaustive enumeration of all 17^n policy states x every device send x every mutating op + Hypothesis histories, reference-router differential",
+        "Model-based generated search: all (1+4^2)^n abstract states (n=2 quick, 3 thorough) x every device-originated message kind x "
+        "device name x sender, plus every register/unregister/re-register/enableBLOB transition with the router's public state compared "
+        "to the model and deliveries re-observed; Hypothesis histories beyond the bound.",
+        "Trusted: harness/routing.py RefRouter as the statement of C05.",
+        "DESIGN.md section 4, C05",
+    ),
+    "C09": (
+        "exploration",
+        "exhaustive state-graph enumeration (rule x n x state x operation) + Hypothesis histories, rule invariants on states and on every published update",
+        "Generated search over the complete transition graph of switch vectors up to n=5 (quick) / 6 (thorough) switches: every "
+        "(state, operation) pair runs on a fresh driver behind a real Router with a recording client; invariants are checked on the "
+        "after-state and on each setSwitchVector published on the way. Exhaustive inside the bound; Hypothesis histories up to n=8.",
+        "Trusted: the invariants in harness/props/c09.py (the statement fixes invariants, not which switch stays On).",
+        "DESIGN.md section 4, C09",
+    ),
     "C10": (
         "exploration",
         "exhaustive resolution-grid and number-grammar enumeration + Hypothesis formats/values, independent INDI number reference",
